@@ -61,7 +61,15 @@ def shapes(n):
 def shape_str(s):
     if isinstance(s, str):
         return s
+    if s[0] == "dup":
+        return f"dup({shape_str(s[1])})"
     return f"{s[0]}({shape_str(s[1])},{shape_str(s[2])})"
+
+
+# the same subtree (same constants) occurring twice - as `compose` produces - plus sums whose quotients can coincide
+_M = ("mod", ("mul", "d0", "c"), "c")
+EXTRA_SHAPES = [("dup", _M), ("dup", ("mod", ("add", ("mul", "d0", "c"), "d1"), "c")), ("dup", ("floordiv", ("mul", "d0", "c"), "c")), ("dup", ("ceildiv", ("mul", "d0", "c"), "c")),
+                ("add", ("floordiv", "d0", "c"), _M), ("add", _M, ("floordiv", "d0", "c")), ("add", _M, _M), ("add", ("dup", _M), "s0")]
 
 
 def canon_shapes(n):
@@ -91,6 +99,8 @@ def obligations(tier):
         w = count_nodes(s)
         obs.append({"id": f"C26/build/{ss}", "kind": "build", "shape": s, "weight": w})
         obs.append({"id": f"C26/simplify/{ss}", "kind": "simplify", "shape": s, "weight": 2 * w})
+    for s in EXTRA_SHAPES:
+        obs.append({"id": f"C26/simplify/{shape_str(s)}", "kind": "simplify", "shape": s, "weight": 8, "budget_s": 600})
     comp_shapes = [s for s in all_shapes if count_nodes(s) <= (1 if tier == "quick" else 2)]
     inner = [("add", ("mul", "d0", "c"), "c"), ("add", "d0", "d1"), ("floordiv", "d0", "c"), ("mod", ("add", "d0", "s0"), "c")]
     for s in comp_shapes:
@@ -115,7 +125,11 @@ def obligations(tier):
 
 
 def count_nodes(s):
-    return 0 if isinstance(s, str) else 1 + count_nodes(s[1]) + count_nodes(s[2])
+    if isinstance(s, str):
+        return 0
+    if s[0] == "dup":
+        return 1 + 2 * count_nodes(s[1])
+    return 1 + count_nodes(s[1]) + count_nodes(s[2])
 
 
 # ------------------------------------------------------------------------------------------------
@@ -144,6 +158,9 @@ def build_raw(s, cx, consts_out, parent_op=None, side=None):
         c = cx.const(role)
         consts_out.append(c)
         return AffineConstantExpr(c), lambda d, y: c
+    if s[0] == "dup":
+        e1, f1 = build_raw(s[1], cx, consts_out, "add", "l")
+        return AffineBinaryOpExpr(K.Add, e1, e1), (lambda d, y: ref_add(f1(d, y), f1(d, y)))
     op, a, b = s
     ea, fa = build_raw(a, cx, consts_out, op, "l")
     eb, fb = build_raw(b, cx, consts_out, op, "r")
